@@ -13,8 +13,7 @@ Check (C01.C01_roundtrip_exact : forall len vals, wf_vals len vals ->
 (* the hypotheses, spelled out so that they cannot be strengthened quietly *)
 Check (eq_refl : opts_ok = fun o => 2 <= o_bs o <= 65535 /\ 1 <= o_ips o <= 65535).
 Check (eq_refl : input_ok = fun sizes inp =>
-  NoDup (map fst (runs inp))
-  /\ Forall (fun c : name => Forall (fun b => b <> 0) c /\ Nlen c < 4294967296) (map fst (runs inp))
+  Forall (fun c : name => Forall (fun b => b <> 0) c /\ Nlen c < 4294967296) (map fst (runs inp))
   /\ Nlen (runs inp) < 65536
   /\ Forall (fun s : name * N => snd s < 4294967296) sizes
   /\ Forall (fun it : item => v_bits (snd it) < 4294967296) inp).
@@ -68,34 +67,28 @@ Check (C01.C01_zero_length_boundary_refuted :
     bw_write ieee C01.k1_opts sizes inp = Ok bs /\ read_info bs = Ok i /\ In (c, vs) (runs inp)
     /\ lookup c sizes = Some len /\ bw_interval (fun x => x) bs i c 0 len = Ok [] /\ vs <> []).
 
-Check (eq_refl : input_fields_ok = fun sizes inp =>
-  Forall (fun c : name => Forall (fun b => b <> 0) c /\ Nlen c < 4294967296) (map fst (runs inp))
-  /\ Nlen (runs inp) < 65536
-  /\ Forall (fun s : name * N => snd s < 4294967296) sizes
-  /\ Forall (fun it : item => v_bits (snd it) < 4294967296) inp).
 Check (eq_refl : vals_of = fun inp c => map snd (filter (fun it : item => name_eqb (fst it) c) inp)).
 Check (eq_refl : first_app [[1]; [2]; [1]; [3]; [2]] = [[1]; [2]; [3]]).
 Check (C01.C01_chrom_table_on_input : forall fp o sizes inp bs,
-  opts_ok o -> input_fields_ok sizes inp -> Nlen bs < U64 ->
+  opts_ok o -> input_ok sizes inp -> Nlen bs < U64 ->
   bw_write fp o sizes inp = Ok bs \/ bw_write_multipass fp o sizes inp = Ok bs ->
-  NoDup (map fst (runs inp)) \/ o_sort_all o = true ->
   forall i, read_info bs = Ok i ->
   i_chroms i = map (fun ci => {| ci_name := fst ci; ci_id := snd ci;
                                  ci_len := match lookup (fst ci) sizes with Some l => l | None => 0 end |})
                    (number 0 (first_app (map fst inp)))).
 Check (C01.C01_query_on_input : forall fp o sizes inp bs,
-  opts_ok o -> input_fields_ok sizes inp -> Nlen bs < U64 ->
+  opts_ok o -> input_ok sizes inp -> Nlen bs < U64 ->
   bw_write fp o sizes inp = Ok bs \/ bw_write_multipass fp o sizes inp = Ok bs ->
-  NoDup (map fst (runs inp)) \/ o_sort_all o = true ->
   forall i infl c s e, read_info bs = Ok i -> In c (map fst inp) ->
   bw_interval infl bs i c s e = Ok (clip_filter s e (vals_of inp c))).
 Check (C01.C01_roundtrip_on_input : forall fp o sizes inp bs,
-  opts_ok o -> input_fields_ok sizes inp -> Nlen bs < U64 ->
+  opts_ok o -> input_ok sizes inp -> Nlen bs < U64 ->
   bw_write fp o sizes inp = Ok bs \/ bw_write_multipass fp o sizes inp = Ok bs ->
-  NoDup (map fst (runs inp)) \/ o_sort_all o = true ->
   forall i infl c len, read_info bs = Ok i -> In c (map fst inp) -> lookup c sizes = Some len ->
   bw_interval infl bs i c 0 len = Ok (filter (fun v => negb (boundary_zero len v)) (vals_of inp c))).
-Check (C01.C01_split_chromosome_refuted :
-  exists bs i, bw_write ieee C01.split_opts [([97], 100); ([98], 50)] C01.split_inp = Ok bs /\ read_info bs = Ok i
-    /\ length (vals_of C01.split_inp [97]) = 2%nat
-    /\ bw_interval (fun x => x) bs i [97] 0 100 = Ok [{| v_start := 0; v_end := 10; v_bits := 1065353216 |}]).
+Check (C01.C01_split_chromosome_refused :
+  bw_write ieee C01.split_opts [([97], 100); ([98], 50)] C01.split_inp = Err E_CHROM_SPLIT
+  /\ bw_write_multipass ieee C01.split_opts [([97], 100); ([98], 50)] C01.split_inp = Err E_CHROM_SPLIT).
+Check (eq_refl : E_CHROM_SPLIT = 12).
+Check (C01.C01_accepted_one_run_per_chromosome : forall fp o sizes inp bs,
+  bw_write fp o sizes inp = Ok bs \/ bw_write_multipass fp o sizes inp = Ok bs -> NoDup (map fst (runs inp))).
